@@ -238,6 +238,8 @@ def snarfShiftGo : Nat → List Char → Nat → Int → Int → Int
   | 0, _, _, _, _ => 0
   | fuel+1, spec, sem, b, d =>
     let (tmp, rest) := strtol spec
+    -- a part out of range is refused before it is summed up
+    if tmp > 366 ∨ tmp < -366 then 0 else
     let neg0 : Bool := spec.head? = some '-'
     match rest with
     | [] =>               -- `*spec++` reads the terminating NUL: `case '\0'`: a plain day count ends the text
